@@ -11,6 +11,7 @@ import (
 	clienttypes "github.com/cosmos/ibc-go/v11/modules/core/02-client/types"
 	channeltypes "github.com/cosmos/ibc-go/v11/modules/core/04-channel/types"
 	channeltypesv2 "github.com/cosmos/ibc-go/v11/modules/core/04-channel/v2/types"
+	mockv2 "github.com/cosmos/ibc-go/v11/testing/mock/v2"
 
 	"verif/harness/kit"
 )
@@ -590,8 +591,22 @@ func (s *Sim) otherLaneID(p *Pkt, side int) string {
 // mutate alters one semantic field of msg in place and returns the label of the change.
 func (s *Sim) mutate(msg sdk.Msg, p *Pkt) string {
 	r := s.R
+	otherPort := func(port string) string {
+		switch port {
+		case mockv2.PortIDA:
+			return mockv2.PortIDB
+		case mockv2.PortIDB:
+			return mockv2.PortIDA
+		case "transfer":
+			return "mock"
+		}
+		return "transfer"
+	}
 	mutV1 := func(pk *channeltypes.Packet) string {
-		switch r.Intn(8) {
+		switch r.Intn(9) {
+		case 8:
+			pk.DestinationPort = otherPort(pk.DestinationPort)
+			return "dstport"
 		case 0:
 			pk.Data = flip(r, pk.Data)
 			return "data"
@@ -623,7 +638,20 @@ func (s *Sim) mutate(msg sdk.Msg, p *Pkt) string {
 		}
 	}
 	mutV2 := func(pk *channeltypesv2.Packet) string {
-		switch r.Intn(9) {
+		switch r.Intn(11) {
+		case 9:
+			// the payload is handed to another registered application
+			pls := append([]channeltypesv2.Payload{}, pk.Payloads...)
+			i := r.Intn(len(pls))
+			pls[i].DestinationPort = otherPort(pls[i].DestinationPort)
+			pk.Payloads = pls
+			return "payload-dstport"
+		case 10:
+			pls := append([]channeltypesv2.Payload{}, pk.Payloads...)
+			i := r.Intn(len(pls))
+			pls[i].SourcePort = otherPort(pls[i].SourcePort)
+			pk.Payloads = pls
+			return "payload-srcport"
 		case 0:
 			i := r.Intn(len(pk.Payloads))
 			pl := pk.Payloads[i]
